@@ -52,7 +52,7 @@ FILES = [
     {"path": "exodus/outCSne8/outCSne8.g"},
     {"path": "geos-cs/c12/test-c12.native.nc4"},
 ]
-CTORS = ["topology", "topology", "topology_lists", "open_grid_dict", "vertices", "vertices_list", "vertices_xyz", "ugrid_mem", "ugrid_mem", "open_grid_ds", "ugrid_file", "raw_ds"]
+CTORS = ["topology", "topology", "topology_lists", "open_grid_dict", "vertices", "vertices_list", "vertices_xyz", "ugrid_mem", "ugrid_mem", "open_grid_ds", "ugrid_file", "raw_ds", "esmf_mem", "esmf_mem"]
 
 COORDS = ["node_lon", "node_lat", "node_x", "node_y", "node_z", "face_lon", "face_lat", "face_x", "face_y", "face_z", "edge_lon", "edge_lat", "edge_x", "edge_y", "edge_z"]
 DERIVE = COORDS + [
@@ -116,6 +116,8 @@ def gen_source(rng):
         d["dict_kwargs"] = rng.random() < 0.4
     if spec["ctor"] == "vertices_xyz":
         d["xyz_scale"] = rng.choice([1.0, 1.0, 0.5, 6371.0])
+    if spec["ctor"] == "esmf_mem":
+        d["esmf_float"] = rng.random() < 0.5
     spec["dialect"] = d
     return spec
 
@@ -176,6 +178,10 @@ def prepare(spec, scratch):
         if ctor == "vertices_list":
             arr = arr.tolist()
         return {"face_vertices": arr}, lambda: ux.Grid.from_face_vertices(arr, latlon=(ctor != "vertices_xyz"))
+    if ctor == "esmf_mem":
+        ds = Wd.esmf_dataset(mesh, d)
+        ds.attrs["title"] = "caller's dataset"
+        return {"dataset": ds}, lambda: ux.Grid.from_dataset(ds)
     ds = Wd.ugrid_dataset(mesh, d)
     ds.attrs["title"] = "caller's dataset"
     ds.attrs["history"] = ["a", "b"]
